@@ -15,8 +15,12 @@ from harness.par import pmap
 def fam(cfg: dict[str, Any], alphabet: list[str], depth: int,
         micro: list[int] | None = None, sched_args: list[int] | None = None,
         exhaustive: bool = True, num: int = 0, spec_depth: int | None = None,
+        strict: bool = False, replay_cfgs: list[dict[str, Any]] | None = None,
         ) -> dict[str, Any]:
-    return {'cfg': cfg, 'alphabet': alphabet, 'depth': depth,
+    """replay_cfgs: configurations under which the generated behaviours are
+    replayed (default: the generating one); they must agree with cfg on every
+    field KfacRef depends on (intervals, hooks, hyper-parameters)."""
+    return {'strict': strict, 'replay_cfgs': replay_cfgs, 'cfg': cfg, 'alphabet': alphabet, 'depth': depth,
             'micro': micro or [1], 'sched_args': sched_args or [-1],
             'exhaustive': exhaustive, 'num': num,
             'spec_depth': spec_depth or depth}
@@ -28,13 +32,15 @@ def _tlc_family(arg: tuple[dict[str, Any], int, bool]) -> dict[str, Any]:
     out: dict[str, Any] = {'spec': None}
     if do_spec:
         r = refreplay.check_spec(cfg, f['alphabet'], f['micro'],
-                                 f['sched_args'], f['spec_depth'], workers=2)
+                                 f['sched_args'], f['spec_depth'], workers=2,
+                                 strict=f['strict'])
         out['spec'] = {'ok': r.ok, 'violated': r.violated,
                        'distinct': r.distinct, 'generated': r.generated,
                        'error': r.error_text[:1200]}
     hs, r = refreplay.gen_behaviours(
         cfg, f['alphabet'], f['micro'], f['sched_args'], f['depth'],
-        f['num'], seed, exhaustive=f['exhaustive'], timeout=1800)
+        f['num'], seed, exhaustive=f['exhaustive'], timeout=1800,
+        strict=f['strict'])
     out['hs'] = hs
     out['gen'] = {'distinct': r.distinct, 'generated': r.generated}
     return out
@@ -47,6 +53,13 @@ def _replay_chunk(arg: tuple[dict[str, Any], list[list[dict]], int]) -> dict:
     agg: dict[str, float] = {}
     for h in hs:
         out = refreplay.replay(cfg, h, seed)
+        for m in out.get('comm', []):
+            out['mismatches'].append(
+                {'cat': 'comm', 'at': (m.get('ctx') or {}).get('n', -1)
+                 if isinstance(m.get('ctx'), dict) else -1,
+                 'act': str((m.get('ctx') or {}).get('op'))
+                 if isinstance(m.get('ctx'), dict) else 'run',
+                 'msg': f'{m["kind"]}: {str(m)[:200]}'})
         for k, v in out['stats'].items():
             if k.startswith('max'):
                 agg[k] = max(agg.get(k, 0.0), v)
@@ -74,10 +87,15 @@ def run_families(families: list[dict[str, Any]], seed: int,
         hs = g['hs']
         if max_replay is not None and len(hs) > max_replay:
             hs = rng.sample(hs, max_replay)
-        total_h += len(hs)
-        n = max(1, len(hs) // 40)
-        for i in range(0, len(hs), n):
-            jobs.append((f['cfg'], hs[i:i + n], seed))
+        rcfgs = f['replay_cfgs'] or [f['cfg']]
+        if any(c.get('W', 1) > 1 for c in rcfgs):
+            hs = [h for h in hs if not h[-1]['x'].get('raises')]
+        for j, rc in enumerate(rcfgs):
+            sub = hs if len(rcfgs) == 1 else hs[j::len(rcfgs)]
+            total_h += len(sub)
+            n = max(1, len(sub) // 24)
+            for i in range(0, len(sub), n):
+                jobs.append((rc, sub[i:i + n], seed))
     outs = pmap(_replay_chunk, jobs)
     bad = []
     stats: dict[str, float] = {}
